@@ -9,6 +9,7 @@ package c11
 import (
 	"bytes"
 	"fmt"
+	"math/big"
 	"math/rand"
 	"strings"
 
@@ -357,6 +358,17 @@ func checkCorruptions(r *core.Result, rng *rand.Rand, m *mode, hdr, body, trl fi
 		c := append(fixwire.Fields{}, fs...)
 		c[1].Val = fmt.Sprint(n + k)
 		try("bodylength-off", rebuild(c))
+	}
+	// BodyLength off by a multiple of 2^64 (and of 2^32): a length far beyond the message, which an accumulator
+	// that wraps around would take for the right one
+	for _, add := range []string{"18446744073709551616", "36893488147419103232", "4294967296"} {
+		var n, a, sum big.Int
+		n.SetString(trueLen, 10)
+		a.SetString(add, 10)
+		sum.Add(&n, &a)
+		c := append(fixwire.Fields{}, fs...)
+		c[1].Val = sum.String()
+		try("bodylength-off-by-power-of-two", rebuild(c))
 	}
 	if len(trueLen) >= 2 && trueLen[0] != trueLen[1] {
 		c := append(fixwire.Fields{}, fs...)
